@@ -1475,7 +1475,7 @@ func (fr *frame) checkFieldWrite(addr ssa.Value, st *bstate, pos token.Pos, cont
 	}
 	isMethodOf := func(names []string) bool {
 		for _, n := range names {
-			if root.Name() == n {
+			if root.Name() == n || strings.HasSuffix(n, "*") && strings.HasPrefix(root.Name(), strings.TrimSuffix(n, "*")) {
 				return true
 			}
 		}
@@ -1490,6 +1490,21 @@ func (fr *frame) checkFieldWrite(addr ssa.Value, st *bstate, pos token.Pos, cont
 				f.oblige(st, fmt.Sprintf("%s#frame:final:%s.%s", fnShortName(fr.fn), ts.Name, fname), "frame", fd.Tags, "false",
 					fmt.Sprintf("%s.%s is declared final: written only by %v", ts.Name, fname, append(append([]string{}, ts.Ctors...), ts.Inits...)), posStr(f.e.fset, pos))
 			}
+		}
+	}
+	for _, fz := range ts.Frozen {
+		if contentsOnly || !f.e.active(fz.Tags) || len(fz.Tags) == 0 && f.e.curProp != "" || isMethodOf(ts.Ctors) || isMethodOf(ts.Inits) {
+			continue
+		}
+		exempt := false
+		for _, ex := range fz.Except {
+			if ex == fname {
+				exempt = true
+			}
+		}
+		if !exempt {
+			f.oblige(st, fmt.Sprintf("%s#frame:frozen:%s.%s", fnShortName(fr.fn), ts.Name, fname), "frame", fz.Tags, "false",
+				fmt.Sprintf("%s is frozen after construction (every field but %v): %s is written here", ts.Name, fz.Except, fname), posStr(f.e.fset, pos))
 		}
 	}
 	for _, pd := range ts.Private {
